@@ -55,6 +55,10 @@ def generic_names_tokens(gen):
 def resolve_method(self, owner, name, kind, hint=None):
     reg = self.reg
     if owner == '':
+        if isinstance(hint, tuple) and hint[0] == 'file':
+            f = reg.free_by_file.get(hint[1], {}).get(name)
+            if f is not None:
+                return f
         return reg.free.get(name)
     fi = reg.inherent.get(owner, {}).get(name)
     if fi is not None:
@@ -95,7 +99,7 @@ def resolve_method(self, owner, name, kind, hint=None):
                 ok = bool(arg) and arg.split('<')[0].strip() == hint[1]
             elif isinstance(hint, tuple) and hint[0] == 'list':
                 ok = bool(arg) and arg.startswith('Vec')
-            elif hint in ('real', 'nat', 'int', 'bool') and arg and not kinds and kind_class(arg) is None and arg not in ('X', 'T'):
+            elif hint in ('real', 'nat', 'int', 'bool') and arg and not kinds and kind_class(arg) is None and arg.split(',')[0].strip() not in ('X', 'T'):
                 ok = False
             if not ok:
                 continue
@@ -110,24 +114,37 @@ def resolve_method(self, owner, name, kind, hint=None):
     return None
 
 
+def targ_parts(fi):
+    from emit import split_top
+    return split_top(fi.trait_arg) if fi.trait_arg else []
+
+
+def is_kind_dependent(fi):
+    gn = generic_names(fi)
+    for part in targ_parts(fi):
+        if kind_class(part):
+            continue
+        if '$' in part or part in gn:
+            return True
+    return False
+
+
 def fn_suffix(self, fi, kind):
-    """lean name suffix for kind-dependent functions"""
-    if fi.trait is None:
+    """lean name suffix for trait fns: one component per trait type argument"""
+    if fi.trait is None or not fi.trait_arg:
         return ''
-    arg = fi.trait_arg
-    if arg is None:
-        return ''
-    kc = kind_class(arg)
-    if kc is None:
-        if arg in ('$ kind', '$kind') or arg in generic_names(fi) or (arg.startswith('(') and '$' in arg):
-            kc = kind_class(kind) if kind else None
-            if kc is None:
-                return '_k'
-            return '_' + kc + ('_tup' if arg.startswith('(') else '')
-        # concrete non-scalar argument (Vec<f64>, Partition, Gaussian, ...)
-        base = re.sub(r'[^A-Za-z0-9]', '', arg)
-        return '_' + base
-    return '_' + kc
+    gn = generic_names(fi)
+    comps = []
+    for part in targ_parts(fi):
+        kc = kind_class(part)
+        if kc is None and ('$' in part or part in gn):
+            kc = kind_class(kind) if kind else 'k'
+            if part.startswith('('):
+                kc = kc + '_tup'
+        if kc is None:
+            kc = re.sub(r'[^A-Za-z0-9]', '', part)
+        comps.append(kc)
+    return '_' + '_'.join(comps)
 
 
 def request(self, owner, name, kind, hint=None):
@@ -139,14 +156,18 @@ def request(self, owner, name, kind, hint=None):
     if fi is None:
         raise Unsupported(f'unknown method {owner}::{name}')
     # kind only matters for kind-dependent fns
-    kdep = fi.trait is not None and fi.trait_arg is not None and kind_class(fi.trait_arg) is None and \
-        (fi.trait_arg in ('$ kind', '$kind') or fi.trait_arg in generic_names(fi) or '$' in fi.trait_arg)
-    use_kind = kind if kdep else (fi.trait_arg if (fi.trait_arg and kind_class(fi.trait_arg)) else None)
+    kdep = fi.trait is not None and is_kind_dependent(fi)
+    parts = targ_parts(fi)
+    use_kind = kind if kdep else (parts[0] if (parts and kind_class(parts[0])) else None)
     if kdep and (kind is None):
         ks = fi.kinds or generic_kinds(fi) or ['f64']
         use_kind = ks[0].strip()
     suffix = self.fn_suffix(fi, use_kind)
     lean = (f'{owner}.{name}{suffix}' if owner else f'{lname(name)}')
+    if not owner and sum(1 for d in self.reg.free_by_file.values() if name in d) > 1:
+        stem = fi.file.replace('.rs', '').split('/')
+        stem = [s for s in stem if s not in ('dist', 'mod')]
+        lean = f'{name}_{"_".join(stem[:1])}'
     if owner and not suffix:
         try:
             if name in dict(self.struct_model(owner)):
